@@ -73,7 +73,7 @@ Definition st_c24 (s : ss_state) : Prop :=
 (* re-registering an assigner with a total limit below what it already redeemed is the only way to break it *)
 Definition ss_lowers_limit (s : ss_state) (o : ss_op) : bool :=
   match o with
-  | OpAddAssigner _ name _ total =>
+  | OpAddAssigner _ name _ _ total =>
       match ss_find_assigner name (st_assigners s), f64_float_to_coin (f64_mul (f64_of_bits total) ss_ten10) with
       | Some a, Some t => t <? as_redeemed a
       | _, _ => false
@@ -144,4 +144,25 @@ Proof.
   - cbn in Hf2. specialize (IH s1). destruct (ss_run c s1 tl) as [s2 oks] eqn:Er. cbn.
     assert (Hs1 : st_c24 s1) by (eapply ss_apply_c24; eauto). exact (IH Hs1 Hf2).
   - cbn in Hf2. specialize (IH s Hs Hf2). destruct (ss_run c s tl) as [s2 oks]. exact IH.
+Qed.
+
+(* ---------- key rotation ---------- *)
+
+Lemma ss_free_needs_current_key : forall c s now round id sender assigner recipient coin nonce signer bl s',
+  ss_apply c s now round (OpFreeAlloc id sender assigner recipient coin nonce signer bl) = Some s' ->
+  exists a, ss_find_assigner assigner (st_assigners s) = Some a /\ signer = as_key a.
+Proof.
+  intros c s now round id sender assigner recipient coin nonce signer bl s' H. cbn [ss_apply] in H.
+  apply ss_free_alloc_spec in H. destruct H as [_ [Hsig _]]. unfold ss_marker_sig_ok in Hsig.
+  destruct (ss_find_assigner assigner (st_assigners s)) as [a|]; [|discriminate]. exists a. split; [reflexivity|]. apply Z.eqb_eq. exact Hsig.
+Qed.
+
+Lemma ss_add_assigner_key : forall c s now round sender name key indiv total s',
+  ss_apply c s now round (OpAddAssigner sender name key indiv total) = Some s' ->
+  exists a, ss_find_assigner name (st_assigners s') = Some a /\ as_key a = key /\
+            as_redeemed a = match ss_find_assigner name (st_assigners s) with Some o => as_redeemed o | None => 0 end.
+Proof.
+  intros c s now round sender name key indiv total s' H. cbn [ss_apply] in H. unfold ss_add_assigner in H.
+  guard_inv H. bind_as H t Et. guard_inv H. bind_as H i Ei. guard_inv H. inversion H; subst. clear H.
+  eexists. split; [cbn; rewrite ss_find_set_assigner; cbn; rewrite Z.eqb_refl; reflexivity|]. split; reflexivity.
 Qed.
